@@ -33,25 +33,27 @@ def main():
 
     broken = []  # (stage, detail): a proof obligation or tie that no longer checks
 
-    # 1. translator: regenerate Gen/*.v from /repo's current source (fail-closed)
-    if hasattr(mod, "translate"):
-        try:
-            with vlib.Lock():
-                mod.translate(ctx)
-        except Exception as ex:
-            broken.append(("translator", "%s: %s" % (type(ex).__name__, ex)))
-
-    # 0. nothing in the development may declare an axiom / disable a kernel check
+    # steps 1, 0 and 2 run under ONE build lock, so that no concurrent check can regenerate Gen/*.v in between
     with vlib.Lock():
-        hits = vlib.scan_forbidden(mod.PROPS, getattr(mod, "EXTRACT", pid))
-    if hits:
-        broken.append(("forbidden-constructs", hits[:20]))
+        # 1. translator: regenerate Gen/*.v from /repo's current source (fail-closed)
+        if hasattr(mod, "translate"):
+            try:
+                with vlib.Lock():
+                    mod.translate(ctx)
+            except Exception as ex:
+                broken.append(("translator", "%s: %s" % (type(ex).__name__, ex)))
 
-    # 2. theorems: full .vo build of Props/Cxx.v and its closure + Print Assumptions
-    try:
-        proof = vlib.check_props(mod.PROPS)
-    except Exception as ex:
-        proof = {"ok": False, "theorems": [], "closed": [], "open": {}, "log": repr(ex), "file": mod.PROPS, "failed_stage": "exception"}
+        # 0. nothing in the development may declare an axiom / disable a kernel check
+        with vlib.Lock():
+            hits = vlib.scan_forbidden(mod.PROPS, getattr(mod, "EXTRACT", pid))
+        if hits:
+            broken.append(("forbidden-constructs", hits[:20]))
+
+        # 2. theorems: full .vo build of Props/Cxx.v and its closure + Print Assumptions
+        try:
+            proof = vlib.check_props(mod.PROPS)
+        except Exception as ex:
+            proof = {"ok": False, "theorems": [], "closed": [], "open": {}, "log": repr(ex), "file": mod.PROPS, "failed_stage": "exception"}
     if not proof["ok"]:
         broken.append(("proof:" + proof.get("failed_stage", "?"), proof.get("log", "")[-3000:]))
     coqchk = None
